@@ -778,6 +778,7 @@ func runC11(c *Ctx) {
 	// ---------------------------------------------------------------- C11.13
 	runC11CloseUnblocks(c)
 	runC11NullIntoPointer(c)
+	runC11HalfGuard(c)
 
 	// ---------------------------------------------------------------- C11.10
 	c.Rule("C11.10", "a declared content length is non-negative or the -1 sentinel", 1)
@@ -1547,5 +1548,76 @@ func runC11NullIntoPointer(c *Ctx) {
 				"the pointer variable the JSON is unmarshalled into is compared with nil",
 				"JSON from the peer is unmarshalled into a pointer variable that is then dereferenced ("+p.Pos(deref)+") without ever being compared with nil: for the body `null` encoding/json sets the pointer to nil and reports success, and the dereference panics out of ServeHTTP")
 		}
+	}
+}
+
+// runC11HalfGuard: C11.16 (seed C07n).  A field that carries messages is singular, a list or a
+// MAP; lists and maps are both `Cardinality() == Repeated`, but only lists are `IsList()`.  Where
+// the value read through a field accessor (Get / Mutable / NewField / an accessor function value)
+// is turned into a message under a guard on that very field, the guard has to exclude both
+// shapes: `Cardinality() != Repeated`, or `!IsList()` together with `!IsMap()`.  A guard that
+// tests list-ness alone lets a map field through and Value.Message() panics on the map - for a
+// body or response_body that names a map field.  (A belief check: sites that rely on the
+// configuration-time validation of the field path carry no guard and are not judged here.)
+func runC11HalfGuard(c *Ctx) {
+	p := c.P
+	c.Rule("C11.16", "a guard that lets an accessor result be used as a message excludes map fields as well as lists", 1)
+	isFD := func(t types.Type) bool {
+		return isNamed(t, "google.golang.org/protobuf/reflect/protoreflect", "FieldDescriptor")
+	}
+	same := func(a, b ssa.Value) bool { return a == b || strip(a) == strip(b) }
+	n := 0
+	for _, fn := range p.Funcs {
+		if !p.inScope(fn) {
+			continue
+		}
+		for _, call := range Calls(fn) {
+			if !IsCallTo(call, "(google.golang.org/protobuf/reflect/protoreflect.Value).Message") {
+				continue
+			}
+			var fds []ssa.Value
+			for _, l := range Origins(call.Common().Args[0]) {
+				if l.Kind != "call" {
+					continue
+				}
+				cc := l.Call.Common()
+				switch {
+				case cc.IsInvoke() && (N(cc.Method) == "Get" || N(cc.Method) == "Mutable" || N(cc.Method) == "NewField") && len(cc.Args) == 1 && isFD(cc.Args[0].Type()):
+					fds = append(fds, cc.Args[0])
+				case !cc.IsInvoke() && cc.StaticCallee() == nil && len(cc.Args) == 2 && isFD(cc.Args[1].Type()):
+					fds = append(fds, cc.Args[1])
+				}
+			}
+			for _, fd := range fds {
+				listFalse, mapFalse, card := false, false, false
+				for _, f := range FactsAt(call.Block()) {
+					if ci, ok := f.Cond.(*ssa.Call); ok && ci.Call.IsInvoke() && same(ci.Call.Value, fd) && !f.Truth {
+						switch N(ci.Call.Method) {
+						case "IsList":
+							listFalse = true
+						case "IsMap":
+							mapFalse = true
+						}
+					}
+					if cmp, ok := f.AsCmp(); ok {
+						for _, side := range []ssa.Value{cmp.X, cmp.Y} {
+							if cc, ok := strip(side).(*ssa.Call); ok && cc.Call.IsInvoke() && N(cc.Call.Method) == "Cardinality" && same(cc.Call.Value, fd) {
+								card = true
+							}
+						}
+					}
+				}
+				if !listFalse && !mapFalse && !card {
+					continue // no local guard: relies on the validated field path
+				}
+				n++
+				c.Check(card || (listFalse && mapFalse), "C11.16", FuncName(fn), "message-guard-excludes-maps", call.Pos(),
+					"the guard excludes every repeated shape (cardinality test, or list and map tests together)",
+					"the accessor result is used as a message under a guard that excludes lists but not maps: for a map field the accessor returns the map and Value.Message() panics")
+			}
+		}
+	}
+	if n == 0 {
+		c.Bad("C11.16", "package", "message-guard-excludes-maps", token.NoPos, "no guarded use of an accessor result as a message found: shape changed")
 	}
 }
